@@ -596,3 +596,32 @@ _extend("C05", [("""   forms bind `bt:all -> slice` and yield the values in orde
 _extend("C02", [], "", [
  ("C02_statement_simulation", "T1Proofs", "stmt_sim", "every statement preserves the slot discipline SR (compile-time table = scopes of the environment, VM stack = values of the live variables)", "check"),
  ("C02_expression_simulation", "T1Expr", "expr_sim", "every expression, including embedded assignments, in evaluation order", "check")])
+
+# ---- lexer-level layout theorems (Proofs/LexFuel.v, LexShift.v, LexLocal.v, LexLayout.v) ----
+_extend("C20", [("""Not proved: the
+   general bridge "inserting layout at a token boundary leaves the (type, text) sequence unchanged" for whole
+   sources (the byte-level theorems are one-step statements; composing them needs position-shift invariance and
+   append-locality of the lexer, see DESIGN.md), and parentheses around arbitrary sub-expressions; both are
+   exercised by the re-rendering oracle on every generated program.""", """The bridge from bytes to
+   tokens is Proofs/LexLayout.v (on top of LexFuel.v: more fuel never changes the lexer's result; LexShift.v: the
+   lexer's tokens do not depend on the absolute position; LexLocal.v: chunks never asked for do not matter):
+   `layout` is any mix of the eight whitespace characters and '#' comments ended by CR or LF; leading layout
+   changes nothing (C20_leading_layout); at an insertion point certified by one computation on the PREFIX
+   (`sep_check`: the lexer stands at a token start after the prefix whatever layout character follows) any
+   non-empty layout can be replaced by any other, and where the prefix ends in a token without look-ahead also
+   removed or inserted (C20_layout_any, C20_layout_any_or_none) -- for every continuation of the source, and the
+   compiled code and constants are then equal (C20_layout_any_compiles).  The theorems are universal in the
+   layouts and in the continuation; the insertion point is certified per prefix (no syntactic criterion such as
+   "the prefix ends in ';'" is proved).  Not proved: parentheses around arbitrary sub-expressions (exercised by
+   the re-rendering oracle on every generated program).""")],
+        "From BCL Require Import Proofs.LexFuel Proofs.LexShift Proofs.LexLocal Proofs.LexLayout.",
+        [("C20_leading_layout", "LexLayout", "leading_layout", ""),
+         ("C20_only_layout", "LexLayout", "only_layout", ""),
+         ("C20_layout_replace", "LexLayout", "layout_replace", ""),
+         ("C20_layout_insertion", "LexLayout", "layout_insertion", ""),
+         ("C20_layout_any", "LexLayout", "layout_any", ""),
+         ("C20_layout_any_or_none", "LexLayout", "layout_any_or_none", ""),
+         ("C20_layout_any_compiles", "LexLayout", "layout_any_compiles", ""),
+         ("C20_boundary_check_sound", "LexLayout", "boundary_check_sound", ""),
+         ("C20_lexer_fuel_irrelevant", "LexFuel", "lex_run_stable", ""),
+         ("C20_lexer_position_irrelevant", "LexShift", "lex_run_shU", "")])
